@@ -364,7 +364,11 @@ fn log_submit_request(request: &SubmitRequest) {
                     .field("task_dir", task_dir)
                     .field(
                         "time_limit",
-                        &time_limit.map(|d| human_duration(chrono::Duration::from_std(d).unwrap())),
+                        &time_limit.map(|d| {
+                            chrono::Duration::from_std(d)
+                                .map(human_duration)
+                                .unwrap_or_else(|_| "Invalid duration".to_string())
+                        }),
                     )
                     .field("priority", priority)
                     .field("crash_limit", crash_limit)
